@@ -24,7 +24,16 @@ def build(g, sid, positions, SR, chans, deviant=None, has_SR=True, amp=True, off
         sr = SR
         if deviant is not None and deviant[0] == i:
             if deviant[1] == "chan":
-                chs = chans[:-1] + ["zz"] if r.random() < 0.5 else chans + ["extra"]
+                k = r.random()
+                if k < 0.35:
+                    chs = chans[:-1] + ["zz"]
+                elif k < 0.6:
+                    chs = chans + ["extra"]
+                else:
+                    # the same label with the other type: 1 vs '1', 'A' stays (no int twin)
+                    i = r.randrange(len(chans))
+                    chs = list(chans)
+                    chs[i] = str(chs[i]) if isinstance(chs[i], int) else chs[i] + "x"
             else:
                 sr = SR * 2
         r.shuffle(chs)
@@ -78,6 +87,9 @@ def case(g, tier, ci):
     ops += build(g, "t", [1], SR, chans, subs=0.0)
     if r.random() < 0.3:
         ops.append({"op": "sq.setSeq", "id": "s", "pos": r.randint(1, 6), "field": "nrep", "v": 2})
+    if r.random() < 0.3:
+        # a sequencing entry created for a position that may hold no element (deprecated setter creates entries)
+        ops.append({"op": "sq.setSeqSettings", "id": "s", "pos": r.choice([0, 1, 2, 3, 4, 5, 7]), "wait": 0, "nreps": 1, "jump": 0, "goto": 0})
     return ops + observe("s", "t")
 
 
